@@ -240,10 +240,98 @@ func malformedKeys() []crypto.PublicKey {
 	}
 }
 
+// c02RetypeAll: every value of the map n (the parsed protected header or
+// payload of tok), and every value inside its component maps, respelt as an
+// item of ANOTHER type that a lenient reader might take for the same thing
+// (1 as true, an integer as a float or as text, a byte string as a text
+// string / an array of integers / behind tag 24, text as bytes, a one-element
+// array around it), under the original signature: must not verify.
+func c02RetypeAll(tok signedTok, n *icbor.Node, protected bool) string {
+	type slot struct {
+		set func(*icbor.Node)
+		cur *icbor.Node
+	}
+	var slots []slot
+	for i := range n.Pairs {
+		i := i
+		slots = append(slots, slot{func(x *icbor.Node) { n.Pairs[i][1] = x }, n.Pairs[i][1]})
+		if n.Pairs[i][1].Kind == icbor.KArray {
+			for _, cm := range n.Pairs[i][1].Items {
+				if cm.Kind == icbor.KMap {
+					for j := range cm.Pairs {
+						cm, j := cm, j
+						slots = append(slots, slot{func(x *icbor.Node) { cm.Pairs[j][1] = x }, cm.Pairs[j][1]})
+					}
+				}
+			}
+		}
+	}
+	for si, sl := range slots {
+		cur := sl.cur
+		var alts []*icbor.Node
+		switch cur.Kind {
+		case icbor.KUint, icbor.KNint:
+			v, _ := cur.Int()
+			alts = []*icbor.Node{icbor.F64(float64(v)), icbor.Arr(cur), icbor.Tstr(fmt.Sprint(v))}
+			if v == 1 {
+				alts = append(alts, icbor.Bool(true))
+			}
+			if v == 0 {
+				alts = append(alts, icbor.Bool(false), icbor.Null())
+			}
+		case icbor.KBytes:
+			alts = []*icbor.Node{{Kind: icbor.KText, B: cur.B}, smallUintsOf(cur.B), icbor.Arr(cur), icbor.Tag(24, cur)}
+		case icbor.KText:
+			alts = []*icbor.Node{icbor.Bstr(cur.B), icbor.Arr(cur), icbor.Tag(32, cur)}
+		default:
+			alts = []*icbor.Node{icbor.Arr(cur)}
+		}
+		for _, alt := range alts {
+			sl.set(alt)
+			enc := icbor.Encode(n)
+			sl.set(cur)
+			cand := icbor.Encode(icose.Envelope(tok.Parts.Protected, nil, enc, tok.Parts.Signature))
+			if protected {
+				cand = icbor.Encode(icose.Envelope(enc, nil, tok.Parts.Payload, tok.Parts.Signature))
+			}
+			if msg, _ := c02Judge(tok, cand); msg != "" {
+				return fmt.Sprintf("value #%d respelt as %s: %s", si, truncate(icbor.Diag(alt), 40), msg)
+			}
+		}
+	}
+	return ""
+}
+
 func TestC02_Splices(t *testing.T) {
 	st := NewStats("C02", "TestC02_Splices", "rapid: two signed tokens (same or different key / algorithm / claims); splice protected, payload or signature content between them; replace the signature by zeros, random bytes, the other token's signature, right-length wrong bytes, or other spellings of the same (r,s) (ASN.1 DER, DER plus junk, zero-padded / zero-stripped halves, doubled); 1..8 random byte edits; protected header / payload re-encoded into different but equivalent bytes (non-preferred widths, long or indefinite map head, permuted keys) under the original signature; bytes appended to / cut from the payload or protected-header content with the length prefix adjusted; correctly signed envelopes that carry the algorithm only in the unprotected header or nowhere, a nil payload, an empty signature; verification with every other key (same type, other types, nil, non-keys). Oracle: independent splitter decides whether covered bytes changed; wrong key never verifies; alg-less/payload-less/signature-less never verify. Non-trivial = the altered token decodes; distinct = (alg, mutation kind, details)")
 	st.Require = []string{"splice-payload", "splice-protected", "splice-signature", "sig-zero", "sig-random", "byte-edits", "alg-unprotected-only", "alg-nowhere", "nil-payload", "nil-payload-original-sig", "empty-signature", "wrong-key", "decoded-verify-failed", "equiv-protected", "equiv-payload", "extend-payload", "extend-protected", "sig-reencode", "prefix-payload", "other-container", "keyless-signature"}
 	defer st.Flush(t)
+	// deterministic prelude: every value of the payload of fixed tokens (both
+	// profiles, with components and in the profile-1 no-measurements form)
+	// respelt as an item of another type
+	for vi := 0; vi < 4; vi++ {
+		for _, p := range []Prof{P1, P2} {
+			m := baseValid(p, vi%3)
+			if vi == 3 {
+				if p != P1 {
+					continue
+				}
+				m.Comps, m.NoMeas = nil, u64p(1)
+			}
+			tk, err := signModel(m, keyFor(icose.EdDSA, vi))
+			if err != nil {
+				t.Fatalf("VERIF-INFRA: %v", err)
+			}
+			pn, _, rerr := icbor.Read(tk.Parts.Payload)
+			if rerr != nil {
+				t.Fatalf("VERIF-INFRA: %v", rerr)
+			}
+			if msg := c02RetypeAll(tk, pn, false); msg != "" {
+				t.Fatalf("C02 violated (fixed %s token #%d): %s", p, vi, msg)
+			}
+			st.Case(fmt.Sprintf("fixed|%s|%d|retype-value", p, vi), "equiv-payload", "retype-value")
+		}
+	}
 	rapid.Check(t, func(t *rapid.T) {
 		algA := rapid.SampledFrom([]int64{icose.EdDSA, icose.EdDSA, icose.ES256, icose.ES256, icose.PS256, icose.ES384, icose.ES512, icose.PS384, icose.PS512}).Draw(t, "algA")
 		kpA := keyFor(algA, rapid.IntRange(0, 2).Draw(t, "keyA"))
@@ -314,7 +402,7 @@ func TestC02_Splices(t *testing.T) {
 			if rerr != nil || n.Kind != icbor.KMap {
 				t.Fatalf("VERIF-INFRA: own token part does not parse: %v", rerr)
 			}
-			how := rapid.SampledFrom([]string{"value-long-head", "key-long-head", "map-long-head", "indefinite-map", "permute", "permute", "extra-unknown-key", "extra-unknown-key"}).Draw(t, "how")
+			how := rapid.SampledFrom([]string{"value-long-head", "key-long-head", "map-long-head", "indefinite-map", "permute", "permute", "extra-unknown-key", "extra-unknown-key", "retype-value", "retype-value", "retype-value"}).Draw(t, "how")
 			switch how {
 			case "value-long-head", "key-long-head":
 				i := rapid.IntRange(0, len(n.Pairs)-1).Draw(t, "pair")
@@ -339,6 +427,12 @@ func TestC02_Splices(t *testing.T) {
 				}
 			case "indefinite-map":
 				n = n.WithIndef()
+			case "retype-value":
+				if msg := c02RetypeAll(a, n, kind == "equiv-protected"); msg != "" {
+					t.Fatalf("C02 violated (%s, %s): %s", kind, kpA.Name(), msg)
+				}
+				st.Case(kpA.Name()+"|"+kind+"|retype-value|"+mA.ClassVector(), kind, "retype-value", icose.AlgName(algA))
+				return
 			case "extra-unknown-key":
 				// decodes to the same claims (an unknown entry is ignored)
 				n.Pairs = append(n.Pairs, icbor.P(icbor.I(rapid.SampledFrom([]int64{-70001, 99, 7000, -1}).Draw(t, "unk")), rapid.SampledFrom([]*icbor.Node{icbor.U(1), icbor.Tstr("x"), icbor.Bstr([]byte{1, 2})}).Draw(t, "unkv")))
